@@ -629,7 +629,7 @@ pub const RULE_C05: &str = "case = hostile read set (as for the graph properties
 pub fn run_c05(ctx: &Ctx) {
     let reach = reachable_pass_counts();
     ctx.note(format!("reachable pass counts ({}): {:?}", reach.len(), reach));
-    let n = ctx.n(5000, 60_000);
+    let n = ctx.n(5000, 30_000);
     let thorough = ctx.tier == Tier::Thorough;
     let reach2 = reach.clone();
     ctx.run_group("filter", n, false, move |c| {
